@@ -126,6 +126,7 @@ func c06Case(w *core.Worker, i int) {
 		c06Row(w, s, i)
 	case i == P:
 		c06Kleene(w, s)
+		c06SessionFormats(w)
 	default:
 		c06Triples(w, s, i)
 	}
@@ -555,4 +556,77 @@ func absU(i int64) uint64 {
 		return uint64(-(i + 1)) + 1
 	}
 	return uint64(i)
+}
+
+// c06SessionFormats: the comparison laws under datetime formats the session adds itself — also formats that consist of digits
+// only, so that one text is a number and a datetime at once. For every ordered pair of a small pool: a=b iff b=a, a<b iff
+// b>a, a<=b iff b>=a, a<>b iff NOT(a=b); and two texts that denote one instant under the format are equal.
+func c06SessionFormats(w *core.Worker) {
+	type fp struct {
+		format string
+		pool   []string
+		same   [][2]string
+	}
+	for _, f := range []fp{
+		{"%Y%m%d", []string{"'20120101'", "'20120102'", "'2012-01-01'", "'2012-01-02'", "DATETIME('2012-01-01')", "20120101", "'20120101.0'", "'abc'", "NULL", "'2012-01-01 00:00:00'", "1", "TRUE", "'2012/01/01'", "20120101.5", "''"},
+			[][2]string{{"'20120101'", "'2012-01-01'"}, {"'20120101'", "DATETIME('2012-01-01')"}, {"'20120102'", "'2012-01-02'"}, {"'20120101'", "'2012/01/01'"}}},
+		{"%e/%c/%y", []string{"'5/3/21'", "'05/03/21'", "'2021-03-05'", "DATETIME('2021-03-05')", "'6/3/21'", "'5'", "'x'", "NULL", "5", "'5/3/21 '", "FALSE"},
+			[][2]string{{"'5/3/21'", "'05/03/21'"}, {"'5/3/21'", "'2021-03-05'"}, {"'05/03/21'", "DATETIME('2021-03-05')"}}},
+		{"%H%i", []string{"'0915'", "'915'", "915", "'09:15'", "'x'", "NULL", "'0916'", "0915.0"}, nil},
+	} {
+		s, err := core.NewSess(core.SessOpts{Dir: w.Work})
+		if err != nil {
+			w.Inconclusive(err.Error())
+			return
+		}
+		s.Exec("SET @@DATETIME_FORMAT TO " + core.SQLStr(f.format) + ";")
+		ev := func(a, b string) ([6]int8, bool) {
+			var out [6]int8
+			res := s.Exec(fmt.Sprintf("SELECT (%s) = (%s), (%s) <> (%s), (%s) < (%s), (%s) <= (%s), (%s) > (%s), (%s) >= (%s);", a, b, a, b, a, b, a, b, a, b, a, b))
+			if res.Err != nil || len(res.Views) != 1 || len(res.Views[0].Rows) != 1 {
+				return out, false
+			}
+			for k := 0; k < 6; k++ {
+				v, ok := ternCell(res.Views[0].Rows[0][k])
+				if !ok {
+					return out, false
+				}
+				out[k] = v
+			}
+			return out, true
+		}
+		for _, a := range f.pool {
+			for _, b := range f.pool {
+				ab, ok1 := ev(a, b)
+				ba, ok2 := ev(b, a)
+				if !ok1 || !ok2 {
+					continue
+				}
+				w.Count("pairs_compared_under_a_datetime_format_of_the_session", 1)
+				viol := func(sig, what string) {
+					w.Violation(sig+":session-format", fmt.Sprintf("DATETIME_FORMAT %s, a=%s b=%s: %s", f.format, a, b, what), c06Replay{A: a, B: b, Expr: "SET @@DATETIME_FORMAT TO " + f.format})
+				}
+				if ab[0] != ba[0] {
+					viol("law:eq-symmetric", fmt.Sprintf("a=b is %s but b=a is %s", ternName(ab[0]), ternName(ba[0])))
+				}
+				if ab[1] != tNot(ab[0]) {
+					viol("law:ne-not-eq", fmt.Sprintf("a<>b is %s but a=b is %s", ternName(ab[1]), ternName(ab[0])))
+				}
+				if ab[2] != ba[4] {
+					viol("law:lt-gt", fmt.Sprintf("a<b is %s but b>a is %s", ternName(ab[2]), ternName(ba[4])))
+				}
+				if ab[3] != ba[5] {
+					viol("law:le-ge", fmt.Sprintf("a<=b is %s but b>=a is %s", ternName(ab[3]), ternName(ba[5])))
+				}
+			}
+		}
+		for _, pr := range f.same {
+			for _, o := range [][2]string{{pr[0], pr[1]}, {pr[1], pr[0]}} {
+				if r, ok := ev(o[0], o[1]); ok && r[0] != 1 {
+					w.Violation("ladder:=:session-format", fmt.Sprintf("DATETIME_FORMAT %s: (%s) = (%s) is %s although both denote one instant and no earlier step of the ladder applies", f.format, o[0], o[1], ternName(r[0])), c06Replay{A: o[0], B: o[1], Expr: "SET @@DATETIME_FORMAT TO " + f.format})
+				}
+			}
+		}
+		s.Close()
+	}
 }
